@@ -33,6 +33,10 @@ CHECKS["C07"]=dict(cat="proof",tech="contract-based deductive verification: ghos
    text="when unless if and or let let* block with-mutex-lock: after a sub-form returns a return-from/go marker no further sub-form is evaluated and the marker is the result; block stops at the marker; return-from allocates its own marker per call; unwind-protect evaluates the protected form then every cleanup form exactly once in order on every non-error path (deferred closure inlined); with-mutex-lock holds the mutex during every body form and the lock balance at every return equals the balance at entry.",
    note="Panicking exits (conditions) are not explored, so cleanup-on-error and release-on-error are not covered; tagbody/go target lookup, dolist/dotimes/do exit handling, with-open-file, ignore-errors and recover are not yet under contract.",
    ref="DESIGN 3 C07, family T")
+CHECKS["C03"]=dict(cat="proof",tech="contract-based deductive verification: contracts on Symbol/Fixnum/Bignum Readably (quoting-scan loop invariant, radix prefix against abstract digit sequences of the assumed strconv/big contracts) and 512 per-byte lemmas between the printer's needPipeMap and the reader's mode tables (constants extracted from /repo); WP over go/ssa; z3",
+   text="Symbol.Readably is proved to put a symbol between pipes whenever any of its bytes needs them (all lengths, all bytes), Fixnum/Bignum.Readably to write exactly the radix prefix of the base the digits are written in for every base and radix setting, and the per-byte lemmas state that a byte the printer leaves unquoted lexes as part of a plain token and that every byte inside pipes is kept by the reader; failing bytes are replayed by printing and re-reading a symbol that contains them.",
+   note="Digit conversion and its inverse (strconv, math/big, the reader's number parser) are assumed; floats, ratios, strings, characters, vectors/arrays and the pretty printer are not under contract.",
+   ref="DESIGN 3 C03, families B, T")
 NA={}
 m=json.load(open('/verif/MANIFEST.json'))
 m['checks']=[]
